@@ -440,6 +440,13 @@ func (c *HostClient) Do(ctx context.Context, req *protocol.Request, resp *protoc
 			break
 		}
 
+		// The body stream was written (and dropped from the request) by an attempt, and the retry function
+		// - which sees a request without a body stream - did not give the request a body again: there is
+		// nothing to send the body from, the next attempt would carry an empty one.
+		if hadBodyStream && !req.IsBodyStream() && len(req.BodyBytes()) == 0 {
+			break
+		}
+
 		wait := retry.Delay(attempts, err, retryCfg)
 		// Retry after wait time
 		time.Sleep(wait)
